@@ -472,7 +472,7 @@ DEEP_GROUP[("gc", "tuple")] = DEEP_GROUP[("gc", "list")] = "gc"
 DEEP_GROUP[("debug", "tuple")] = DEEP_GROUP[("debug", "list")] = "debug"
 
 
-QUICK_DEEP = {"repr", "hash", "json.encode", "debug", "eq", "lt", "sorted", "in-list", "format", "fail-msg", "dict-key", "len", "bool", "json.decode-deep"}
+QUICK_DEEP = {"repr", "hash", "json.encode", "debug", "eq", "lt", "len", "json.decode-deep"}
 
 
 def deep_cases(ctx, depth):
@@ -732,6 +732,9 @@ def run_histories(ctx, n_hist, tag):
     st = {"histories": len(cases), "steps": 0, "failing_steps": 0, "probes": 0, "model_cases": 0, "ministar": 0, "line_checked": 0,
           "chain_checked": 0, "tags": {}, "f4_seen": 0}
     for gi, why, log in deaths:
+        m = re.findall(r"PANIC at (\S+)", log)
+        if m:
+            why = "%s:after-panic:%s" % (why, m[-1])
         failures.append({"key": "%s:history" % why, "what": "the process died (%s) during a history of %d evaluations: %s" % (why, len(cases[gi]["files"]), log[-200:]),
                          "replay": {"kind": "history", "files": cases[gi]["files"]}})
     for gi, why, log in adeaths:
@@ -903,21 +906,25 @@ def run_corpus(ctx):
     entries = corpus_cases(ctx)
     cases = []
     for e in entries:
-        files = [{"name": "prelude.star", "src": PRELUDE}] + [{"name": "c%d.star" % i, "src": s} for i, s in enumerate(e["steps"])]
-        cases.append({"kind": "run", "files": files, "probe": ctx.probe, "probe_each": True, "timeout_ms": 60000, "disable_gc": e.get("disable_gc", False)})
+        files = ([] if e.get("no_prelude") else [{"name": "prelude.star", "src": PRELUDE}]) + [{"name": "c%d.star" % i, "src": s} for i, s in enumerate(e["steps"])]
+        cases.append({"kind": "run", "files": files, "probe": ctx.probe, "probe_each": True, "timeout_ms": 120000, "disable_gc": e.get("disable_gc", False),
+                      "interleave_fresh": e.get("interleave_fresh", False), "transcript": e.get("interleave_fresh", False)})
     res, deaths = run_resilient(ctx, cases, "corpus")
     failures = []
-    dead = {i: why for i, why, _ in deaths}
+    dead = {}
+    for i, why, log in deaths:
+        m = re.findall(r"PANIC at (\S+)", log)
+        dead[i] = "%s:after-panic:%s" % (why, m[-1]) if m else why
     for i, (e, c) in enumerate(zip(entries, cases)):
         if i in dead:
-            failures.append({"key": e.get("key_on_death", "%s:corpus:%s" % (dead[i], e["name"])), "what": "corpus case %s: the process died (%s)" % (e["name"], dead[i]),
+            failures.append({"key": e.get("key_on_death") or "%s:corpus:%s" % (dead[i], e["name"]), "what": "corpus case %s: the process died (%s)" % (e["name"], dead[i]),
                              "replay": {"kind": "corpus", "entry": e}})
             continue
         r = res[i]
         if r is None or "steps" not in r:
             failures.append({"key": "panic:corpus:%s" % e["name"], "what": "corpus case %s: %s" % (e["name"], r), "replay": {"kind": "corpus", "entry": e}})
             continue
-        for j, step in enumerate(r["steps"][1:]):
+        for j, step in enumerate(r["steps"][(0 if e.get("no_prelude") else 1):]):
             for k, text in check_step(step, "corpus"):
                 failures.append({"key": "%s:corpus:%s" % (k, e["name"]), "what": "corpus case %s step %d: %s" % (e["name"], j, text), "replay": {"kind": "corpus", "entry": e}})
             want = e.get("expect", [None] * (j + 1))[j] if j < len(e.get("expect", [])) else None
@@ -963,7 +970,7 @@ def correspond(ctx):
     f2, st2 = run_deep(ctx, ctx.n(300000, 1000000), "deep") if SCALE >= 1 else ([], {"deep_cases": 0, "deep_survived": 0})
     ctx.log("deep recursion: %s failures=%d" % (st2, len(f2)))
     failures += f2
-    f3, st3 = run_histories(ctx, max(10, int(ctx.n(90, 6000) * SCALE)), "hist")
+    f3, st3 = run_histories(ctx, max(10, int(ctx.n(60, 6000) * SCALE)), "hist")
     ctx.log("histories: %s failures=%d" % ({k: v for k, v in st3.items() if k != "tags"}, len(f3)))
     failures += f3
     if st3["f4_seen"]:
